@@ -21,7 +21,10 @@
 (* Then up to MaxMut ADVERSARY steps are taken, each a named action (so     *)
 (* coverage is measurable):                                                 *)
 (*   FlipByte  Truncate  SpliceToken  SetNumber  SetHex  NestDeep           *)
-(*   MakeCycle  DropKeyword  SwapEntry  RepeatToken  PadTail                *)
+(*   MakeCycle  DropKeyword  SwapEntry  RepeatToken  PadTail  InsertKey     *)
+(* and after the parse comes the USE: UseStep lays down which public calls  *)
+(* are made on the parsed value under the same guard, and for a CMap the    *)
+(* codes to decode - the boundaries of the mutated CMap's own ranges.       *)
 (* the result is emitted (EmitCase, a single-successor step), the input is  *)
 (* reset to the legal one and the next round starts (Rounds rounds per      *)
 (* behaviour; round 0 emits the legal input itself).                        *)
@@ -138,9 +141,10 @@ ScanSites(bytes) ==
                    (IF a1.ds = 0 /\ ~a1.pr THEN [a1 EXCEPT !.ds = i] ELSE a1)
                ELSE IF b = 60 THEN [a1 EXCEPT !.hs = i + 1, !.pr = FALSE]
                ELSE IF b = 62 /\ a1.hs # 0 /\ (\A j \in a1.hs..(i - 1) : IsHex(bytes[j]) \/ IsWS(bytes[j]))
-                    THEN [a1 EXCEPT !.out = Append(@, MkSite("hex", a1.hs, i - 1, a1.nm, 0)), !.hs = 0, !.pr = FALSE]
-               ELSE [a1 EXCEPT !.pr = IsRegular(b) /\ b \notin {43, 45}, !.hs = IF IsHex(b) \/ IsWS(b) THEN @ ELSE 0]
-        r == FoldLeft(step, [out |-> <<>>, ds |-> 0, nm |-> <<>>, innm |-> FALSE, idx |-> 0, hs |-> 0, pr |-> FALSE],
+                    THEN [a1 EXCEPT !.out = Append(@, MkSite("hex", a1.hs, i - 1, a1.nm, a1.hl + 1)), !.hs = 0, !.pr = FALSE, !.hl = @ + 1]
+               ELSE [a1 EXCEPT !.pr = IsRegular(b) /\ b \notin {43, 45}, !.hs = IF IsHex(b) \/ IsWS(b) THEN @ ELSE 0,
+                               !.hl = IF IsEOLb(b) /\ a1.hs = 0 THEN 0 ELSE @]        \* hex strings are numbered within their line
+        r == FoldLeft(step, [out |-> <<>>, ds |-> 0, nm |-> <<>>, innm |-> FALSE, idx |-> 0, hs |-> 0, pr |-> FALSE, hl |-> 0],
                       [i \in 1..Len(bytes) |-> i])
     IN IF r.ds # 0 THEN Append(r.out, MkSite("dec", r.ds, Len(bytes), r.nm, r.idx + 1)) ELSE r.out
 
@@ -191,7 +195,7 @@ PairsToMap(d) == [key \in {d[i][1] : i \in 1..Len(d)} |-> d[CHOOSE i \in 1..Len(
 (* The mutation grammar *)
 
 Kinds == {"FlipByte", "Truncate", "SpliceToken", "SetNumber", "SetHex", "NestDeep", "MakeCycle", "DropKeyword", "SwapEntry",
-          "RepeatToken", "PadTail"}
+          "RepeatToken", "PadTail", "InsertKey"}
 
 D(ds) == [i \in 1..Len(ds) |-> 48 + ds[i]]
 \* -1, 0, 1, 2^31-1, 2^32, 2^63-1, 10^18, 2^64-1 as digit strings
@@ -303,14 +307,31 @@ SetNumber ==
                       /\ adict' = adict
                       /\ Done1(MEntry("SetNumber", sites[i].name, sites[i].idx, v, "bytes"))
 
+\* hex digits of a hex string as nibbles, +1 / -1 on them (same number of digits, wrapping), and back to text
+Nibs(bs) == LET h == SelectSeq(bs, IsHex) IN [i \in 1..Len(h) |-> HexVal(h[i])]
+RECURSIVE IncN(_)
+IncN(ns) == IF ns = <<>> THEN <<>> ELSE IF ns[Len(ns)] = 15 THEN IncN(SubSeq(ns, 1, Len(ns) - 1)) \o <<0>>
+            ELSE SubSeq(ns, 1, Len(ns) - 1) \o <<ns[Len(ns)] + 1>>
+RECURSIVE DecN(_)
+DecN(ns) == IF ns = <<>> THEN <<>> ELSE IF ns[Len(ns)] = 0 THEN DecN(SubSeq(ns, 1, Len(ns) - 1)) \o <<15>>
+            ELSE SubSeq(ns, 1, Len(ns) - 1) \o <<ns[Len(ns)] - 1>>
+HexText(ns) == [i \in 1..Len(ns) |-> HexDigitU(ns[i])]
+
+\* a hex string is replaced by a fixed extreme, or moved by one (range bounds: one code more or less than the target
+\* array / the neighbouring range provides); the first two hex strings of a line (the bounds of a range) are preferred
 SetHex ==
     /\ Applying("SetHex")
     /\ IF SiteIdx("hex") = {} THEN Noop("SetHex")
-       ELSE \E i \in {RandomElement(SiteIdx("hex"))} : \E v \in {RandomElement(HexValues), RandomElement(HexValues)} :
+       ELSE LET bounds == {j \in SiteIdx("hex") : sites[j].idx \in {1, 2}} IN
+            \E i \in {IF bounds # {} /\ RandomElement(1..3) <= 2 THEN RandomElement(bounds) ELSE RandomElement(SiteIdx("hex"))} :
+            \E mode \in {RandomElement({"set", "inc", "dec"})} :
+            \E v \in {IF mode = "set" \/ Nibs(SubSeq(out, sites[i].s, sites[i].e)) = <<>> THEN RandomElement(HexValues)
+                       ELSE IF mode = "inc" THEN HexText(IncN(Nibs(SubSeq(out, sites[i].s, sites[i].e))))
+                       ELSE HexText(DecN(Nibs(SubSeq(out, sites[i].s, sites[i].e))))} :
               /\ out' = Splice(out, sites[i].s, sites[i].e, v)
               /\ sites' = ShiftSites(sites, sites[i].s, sites[i].e, Len(v), i)
               /\ adict' = adict
-              /\ Done1(MEntry("SetHex", sites[i].name, 0, v, ""))
+              /\ Done1(MEntry("SetHex", sites[i].name, sites[i].idx, v, mode))
 
 \* deep nesting: strings "((((", arrays, dictionaries - balanced or left open - in place of a number or anywhere
 NestUnits(kind) ==
@@ -466,6 +487,51 @@ PadTail ==
              /\ adict' = adict
              /\ Done1(MEntry("PadTail", NmNone, n, <<b>>, ""))
 
+\* Key insertion: a dictionary gets a key it did not have.  The keys come from IOEnv.VOCAB - the names the library
+\* itself looks up, harvested from its sources when the check runs - so a key that only a new code path consults is
+\* offered as soon as that path exists; the values are adversarial (huge and negative integers, reals, a reference to
+\* the object itself, arrays, wrong kinds).  In a stream dictionary given as a value the pair is appended (also inside a
+\* nested dictionary such as DecodeParms); in bytes it is written behind a "<<" or in front of a ">>" (there the new
+\* entry is the last one of its dictionary and wins over an earlier one).  The harness repeats the case with every
+\* other key of the vocabulary in the place TLC wrote this one (site form "ins" / the pair index in the log).
+Vocab == ndJsonDeserialize(IOEnv.VOCAB)
+VocabNames == {Vocab[i].name : i \in 1..Len(Vocab)}
+AV(k, b, o) == [k |-> k, b |-> b, o |-> o]
+BigReal == [i \in 1..39 |-> 9]
+AdvValues ==
+    {AV("int", v, NumObj(v)) : v \in Numbers}
+    \cup { AV("real", D(BigReal) \o <<46, 57>>, OReal(FALSE, BigReal, <<9>>)), AV("real", <<45, 48, 46, 53>>, OReal(TRUE, <<0>>, <<5>>)),
+           AV("self", <<49, 32, 48, 32, 82>>, ORef(1, 0)),
+           AV("arr", <<91>> \o Num2p32 \o <<32>> \o NumNeg1 \o <<93>>, OArr(<<NumObj(Num2p32), NumObj(NumNeg1)>>)),
+           AV("arr", <<91, 93>>, OArr(<<>>)),
+           AV("name", <<47, 88>>, OName(<<88>>)), AV("str", <<40, 120, 41>>, OStr(<<120>>)),
+           AV("bool", KwTrue, OBool(TRUE)), AV("null", KwNull, ONull),
+           AV("dict", <<60, 60, 62, 62>>, [k |-> "dict", v |-> <<>>]) }
+
+InsertKey ==
+    /\ Applying("InsertKey")
+    /\ \E key \in {RandomElement(VocabNames)} : \E val \in {RandomElement(AdvValues)} :
+       \E inDict \in {adict # <<>> /\ (~seed.txt \/ RandomElement({TRUE, FALSE}))} :
+       IF inDict THEN
+           LET nestedAt == {i \in 1..Len(adict) : adict[i][2].k = "dict"} IN
+           \E at \in {IF nestedAt # {} /\ RandomElement({TRUE, FALSE}) THEN RandomElement(nestedAt) ELSE 0} :
+              /\ adict' = IF at = 0 THEN Append(adict, <<key, val.o>>)
+                          ELSE [adict EXCEPT ![at][2].v = Append(@, <<key, val.o>>)]
+              /\ out' = out /\ sites' = sites
+              /\ Done1(MEntry("InsertKey", key, IF at = 0 THEN Len(adict) + 1 ELSE at * 1000 + Len(adict[at][2].v) + 1, val.b, "dict." \o val.k))
+       ELSE LET opens == {i + 2 : i \in AllOcc(out, <<60, 60>>)}
+                closes == AllOcc(out, <<62, 62>>)
+            IN IF ~seed.txt \/ opens \cup closes = {} THEN Noop("InsertKey")
+               ELSE \E p \in {RandomElement(opens \cup closes)} :
+                    \E self \in {IF val.k = "self" /\ ep = "file" THEN ObjNumBefore(out, p) ELSE <<>>} :
+                    LET vb == IF self # <<>> THEN self \o <<32, 48, 32, 82>> ELSE val.b
+                        new == <<32, 47>> \o key \o <<32>> \o vb \o <<32>>
+                        site == [form |-> "ins", s |-> p + 2, e |-> p + 1 + Len(key), name |-> key, idx |-> 0, x |-> <<>>]
+                    IN /\ out' = Splice(out, p, p - 1, new)
+                       /\ sites' = Append(ShiftSites(sites, p, p - 1, Len(new), 0), site)
+                       /\ adict' = adict
+                       /\ Done1(MEntry("InsertKey", key, 0, vb, "bytes." \o val.k))
+
 DropKeyword ==
     /\ Applying("DropKeyword")
     /\ LET cands == {t \in ToksOf(seed) : Len(t) >= 2 /\ AllOcc(out, t) # {}}
@@ -520,10 +586,34 @@ RdFileT(bytes) == RdFile(bytes)
 \* what matters of a strict reading for the "semantically neutral" note
 RdSummary(bytes) ==
     LET r == RdFileT(bytes) IN
-    IF r.ok THEN [ok |-> TRUE, err |-> "", version |-> r.version, trailer |-> r.trailer, view |-> r.view]
-    ELSE [ok |-> FALSE, err |-> r.err, version |-> <<>>, trailer |-> EmptyMap, view |-> EmptyMap]
+    IF r.ok THEN [ok |-> TRUE, err |-> "", version |-> r.version, trailer |-> r.trailer, view |-> r.view, use |-> <<>>, probes |-> <<>>]
+    ELSE [ok |-> FALSE, err |-> r.err, version |-> <<>>, trailer |-> EmptyMap, view |-> EmptyMap, use |-> <<>>, probes |-> <<>>]
 
-NoRd == [ok |-> FALSE, err |-> "n/a", version |-> <<>>, trailer |-> EmptyMap, view |-> EmptyMap]
+NoRd == [ok |-> FALSE, err |-> "n/a", version |-> <<>>, trailer |-> EmptyMap, view |-> EmptyMap, use |-> <<>>, probes |-> <<>>]
+
+-----------------------------------------------------------------------------
+(* Parse -> Use.  A value that was parsed from adversarial bytes is then used through the public API, under the same   *)
+(* guard.  UseKinds names the calls the worker makes when the parse returned a value; for a ToUnicode CMap the texts    *)
+(* to decode are derived from the mutated program itself: every hex string of 1-4 bytes is a code (range bounds are),   *)
+(* and it is probed as it stands, one below, one above (first / last / one-past of every range), one byte longer and    *)
+(* one byte shorter (every code length).                                                                                 *)
+UseKinds(e) ==
+    IF e = "file" THEN <<"streams.decompress", "pages.content", "pages.decode", "fonts.decode", "extract_text">>
+    ELSE IF e = "cmap" THEN <<"decode.generic", "decode.boundaries">>
+    ELSE IF e = "content" THEN <<"encode">>
+    ELSE IF e = "filter" THEN <<"plain_content">>
+    ELSE <<>>
+
+PairUp(ns) == [i \in 1..(Len(ns) \div 2) |-> ns[2 * i - 1] * 16 + ns[2 * i]]
+CodeProbes(ns) ==      \* ns: an even number (2..8) of nibbles
+    LET c == PairUp(ns)
+    IN <<c, PairUp(IncN(ns)), PairUp(DecN(ns))>>
+       \o (IF Len(c) < 4 THEN <<<<0>> \o c>> ELSE <<>>) \o (IF Len(c) > 1 THEN <<Tail(c)>> ELSE <<>>)
+BoundaryProbes(bytes) ==
+    LET hs == SelectSeq(ScanSites(bytes), LAMBDA x : x.form = "hex")
+        codes == SelectSeq([i \in 1..Len(hs) |-> Nibs(SubSeq(bytes, hs[i].s, hs[i].e))], LAMBDA ns : Len(ns) \in {2, 4, 6, 8})
+    IN Concat([i \in 1..(IF Len(codes) > 60 THEN 60 ELSE Len(codes)) |-> CodeProbes(codes[i])])
+UseProbes(e, bytes, txt) == IF e = "cmap" /\ txt THEN BoundaryProbes(bytes) ELSE <<>>
 
 JudgeOf(e, bytes, d, txt) ==
     IF e = "file" THEN RdSummary(bytes)
@@ -581,10 +671,12 @@ Applicable(k) ==
     ELSE IF k = "MakeCycle" THEN ep = "file"
     ELSE IF k = "DropKeyword" THEN \E t \in ToksOf(seed) : Len(t) >= 2 /\ AllOcc(out, t) # {}
     ELSE IF k = "SwapEntry" THEN Len(out) >= 8 \/ Cardinality(DictPaths(adict)) >= 2
+    ELSE IF k = "InsertKey" THEN adict # <<>> \/ (seed.txt /\ AllOcc(out, <<60, 60>>) # {})
     ELSE TRUE
 
 \* structure-aware kinds are drawn more often than the byte-level ones (those also come in bulk from the harness)
-Weight(k) == IF k = "SetNumber" THEN 4 ELSE IF k \in {"NestDeep", "MakeCycle", "SetHex", "RepeatToken", "PadTail", "stop"} THEN 2 ELSE 1
+Weight(k) == IF k = "SetNumber" THEN 4 ELSE IF k = "SetHex" THEN (IF ep = "cmap" THEN 6 ELSE 2) ELSE IF k = "InsertKey" THEN 3
+             ELSE IF k \in {"NestDeep", "MakeCycle", "RepeatToken", "PadTail", "stop"} THEN 2 ELSE 1
 Lottery(S) == UNION {{<<k, i>> : i \in 1..Weight(k)} : k \in S}
 
 Pick ==
@@ -597,6 +689,13 @@ Pick ==
 EmitCase ==
     /\ ph = "emit"
     /\ judge' = IF round = 0 THEN base.rd ELSE JudgeOf(ep, out, adict, seed.txt)
+    /\ ph' = "use"
+    /\ UNCHANGED <<pvars, di, fin, ep, seed, sites, lex, adict, base, mk, nmut, round, mlog>>
+
+\* second phase: what is done with the value the entry point returns
+UseStep ==
+    /\ ph = "use"
+    /\ judge' = [judge EXCEPT !.use = UseKinds(ep), !.probes = UseProbes(ep, out, seed.txt)]
     /\ ph' = "emitted"
     /\ UNCHANGED <<pvars, di, fin, ep, seed, sites, lex, adict, base, mk, nmut, round, mlog>>
 
@@ -609,7 +708,7 @@ Reset ==
     /\ UNCHANGED <<pvars_rest, di, fin, ep, seed, lex, base, mk, judge>>
 
 ANext == AProduce \/ AFinish \/ Pick \/ FlipByte \/ Truncate \/ SpliceToken \/ SetNumber \/ SetHex \/ NestDeep
-         \/ MakeCycle \/ DropKeyword \/ SwapEntry \/ RepeatToken \/ PadTail \/ EmitCase \/ Reset
+         \/ MakeCycle \/ DropKeyword \/ SwapEntry \/ RepeatToken \/ PadTail \/ InsertKey \/ EmitCase \/ UseStep \/ Reset
 
 ASpec == AInit /\ [][ANext]_allvars
 
@@ -641,6 +740,9 @@ AEmitInv ==
                                     bck |-> <<Len(base.bytes), Cks(base.bytes)>>,
                                     nests |-> [i \in 1..Len(SelectSeq(sites, LAMBDA x : x.form = "nest")) |->
                                                  LET x == SelectSeq(sites, LAMBDA y : y.form = "nest")[i] IN <<x.s, x.e>> \o x.x],
+                                    use |-> judge.use, probes |-> judge.probes,
+                                    ins |-> [i \in 1..Len(SelectSeq(sites, LAMBDA x : x.form = "ins")) |->
+                                                 LET x == SelectSeq(sites, LAMBDA y : y.form = "ins")[i] IN <<x.s, x.e>>],
                                     reps |-> [i \in 1..Len(SelectSeq(sites, LAMBDA x : x.form = "rep")) |->
                                                  LET x == SelectSeq(sites, LAMBDA y : y.form = "rep")[i] IN <<x.s, x.e>> \o x.x]])>>)
 =============================================================================
